@@ -133,6 +133,7 @@ class Analysis:
         self.invariants = {}
         self.infer_depth = 0
         self.debug = False
+        self.call_lb = {}
         self.inv_cache = {}
         self.related = set()
         for n in fn.nodes.values():
@@ -571,6 +572,13 @@ class Analysis:
         args = C.call_args(n)
         ct = self.contracts.get(name or "")
         if ct is None:
+            # what is known about integer arguments at this call site (used when the callee is analysed with
+            # the caller's (buffer, capacity) pair: preconditions established by the caller carry over)
+            rec = self.call_lb.setdefault(n.id, {})
+            for i_, a_ in enumerate(args):
+                v_ = self.value(st, a_)
+                if v_ is not None:
+                    rec.setdefault(i_, []).append(bool(entails(st.cons, le(Lin.const(1), v_))))
             # unknown callee: out-parameters become unknown
             for a in args:
                 p = a.strip_all_casts().get("path") or ""
@@ -863,6 +871,14 @@ class Analysis:
         if char_read(a):
             return
         # nullness of a pointer that a contract tied to arithmetic facts
+        if a.k == "BinaryOperator" and a.get("op") in ("==", "!=") and getattr(st, "nullcase", None):
+            l0, r0 = a.child(0).strip_all_casts(), a.child(1).strip_all_casts()
+            for x_, y_ in ((l0, a.child(1)), (r0, a.child(0))):
+                if x_.get("path") in st.nullcase and C.is_null(y_):
+                    nonnull = pol if a["op"] == "!=" else not pol
+                    nn, nu = st.nullcase[x_["path"]]
+                    st.cons += (nn if nonnull else nu)
+                    return
         if a.get("tk") == "ptr" and a.get("path") in getattr(st, "nullcase", {}):
             nn, nu = st.nullcase[a["path"]]
             st.cons += (nn if pol else nu)
